@@ -1,5 +1,11 @@
 import MuscleModel.Gateway.WebSocket
 
+set_option linter.unusedSimpArgs false
+
+/-! WebSocket frame kernels: masking is an involution for every key; the length field round-trips in its 7-bit, 16-bit
+and 64-bit form; a frame built by `CreateReplyFrame` (server: unmasked; client: masked with any 4-byte key) is taken
+apart by the receiver's header logic into exactly its opcode and payload. -/
+
 namespace Muscle.Gateway
 open Muscle
 
@@ -10,5 +16,97 @@ theorem wsMask_involutive (key : Bytes) : ∀ (i : Nat) (p : Bytes), wsMask key 
   | cons b r ih =>
     simp only [wsMask, ih]
     rw [UInt8.xor_assoc, UInt8.xor_self, UInt8.xor_zero]
+
+theorem wsMask_length (key : Bytes) : ∀ (i : Nat) (p : Bytes), (wsMask key i p).length = p.length := by
+  intro i p
+  induction p generalizing i with
+  | nil => rfl
+  | cons b r ih => simp [wsMask, ih]
+
+theorem beN_length (k n : Nat) : (beN k n).length = k := by simp [beN]
+
+theorem beVal_beN (k n : Nat) (h : n < 256 ^ k) : beVal (beN k n) = n := by
+  simp [beVal, beN, leVal_leN k n h]
+
+theorem u8_toNat (n : Nat) (h : n < 256) : (UInt8.ofNat n).toNat = n := by
+  rw [UInt8.toNat_ofNat']; omega
+
+/-- **the length field round-trips** in each of its three forms, with or without the mask bit -/
+theorem wsReadLen_lenField (mask : Nat) (hm : mask = 0 ∨ mask = 128) (n : Nat) (hn : n < 9223372036854775808) (rest : Bytes) :
+    ∃ b1 ext, wsLenField mask n = b1 :: ext ∧ wsReadLen b1 (ext ++ rest) = some (n, rest) ∧
+      decide (128 ≤ b1.toNat) = decide (mask = 128) ∧ (b1.toNat % 128 = 127 → 65535 < n) := by
+  by_cases h1 : 65535 < n
+  · refine ⟨UInt8.ofNat (mask + 127), beN 8 n, by simp [wsLenField, h1], ?_, ?_, fun _ => h1⟩
+    · have ht : (UInt8.ofNat (mask + 127)).toNat % 128 = 127 := by
+        rw [u8_toNat _ (by omega)]; omega
+      have hlen : ¬ ((beN 8 n ++ rest).length < 8) := by simp [beN_length]
+      have htake : (beN 8 n ++ rest).take 8 = beN 8 n := List.take_left' (beN_length 8 n)
+      have hdrop : (beN 8 n ++ rest).drop 8 = rest := List.drop_left' (beN_length 8 n)
+      have hv : beVal (beN 8 n) = n := beVal_beN 8 n (by omega)
+      have hnot : ¬ (9223372036854775808 ≤ n) := by omega
+      simp only [wsReadLen, ht]
+      simp [htake, hdrop, hv, hnot, beN_length]
+    · rw [u8_toNat _ (by omega)]; rcases hm with h | h <;> subst h <;> simp
+  · by_cases h2 : 125 < n
+    · refine ⟨UInt8.ofNat (mask + 126), beN 2 n, by simp [wsLenField, h1, h2], ?_, ?_, ?_⟩
+      · have ht : (UInt8.ofNat (mask + 126)).toNat % 128 = 126 := by
+          rw [u8_toNat _ (by omega)]; omega
+        have hlen : ¬ ((beN 2 n ++ rest).length < 2) := by simp [beN_length]
+        have htake : (beN 2 n ++ rest).take 2 = beN 2 n := List.take_left' (beN_length 2 n)
+        have hdrop : (beN 2 n ++ rest).drop 2 = rest := List.drop_left' (beN_length 2 n)
+        have hv : beVal (beN 2 n) = n := beVal_beN 2 n (by omega)
+        simp only [wsReadLen, ht]
+        simp [htake, hdrop, hv, beN_length]
+      · rw [u8_toNat _ (by omega)]; rcases hm with h | h <;> subst h <;> simp
+      · rw [u8_toNat _ (by omega)]; omega
+    · refine ⟨UInt8.ofNat (mask + n), [], by simp [wsLenField, h1, h2], ?_, ?_, ?_⟩
+      · have ht : (UInt8.ofNat (mask + n)).toNat % 128 = n := by
+          rw [u8_toNat _ (by omega)]; omega
+        have h126 : ¬ (n = 126) := by omega
+        have h127 : ¬ (n = 127) := by omega
+        simp only [wsReadLen, ht]
+        simp [h126, h127]
+      · rw [u8_toNat _ (by omega)]
+        rcases hm with h | h <;> subst h <;> simp <;> omega
+      · rw [u8_toNat _ (by omega)]; omega
+
+theorem ws_b0 (op : Nat) (h : op < 16) :
+    (UInt8.ofNat (128 + op)).toNat / 16 % 8 = 0 ∧ (UInt8.ofNat (128 + op)).toNat % 16 = op ∧
+      decide (128 ≤ (UInt8.ofNat (128 + op)).toNat) = true := by
+  rw [u8_toNat _ (by omega)]
+  exact ⟨by omega, by omega, by simp⟩
+
+/-- **server frame**: what `CreateReplyFrame` of a server builds, a client's header logic takes apart exactly -/
+theorem ws_server_frame_decode (op : Nat) (hop : op < 16) (p : Bytes) (hp : p.length ≤ 10485760) (rest : Bytes) :
+    wsDecodeFrame false (wsServerFrame op p ++ rest) = some (op, true, p, rest) := by
+  obtain ⟨b1, ext, hf, hr, hmask, h127⟩ := wsReadLen_lenField 0 (Or.inl rfl) p.length (by omega) (p ++ rest)
+  obtain ⟨c1, c2, c3⟩ := ws_b0 op hop
+  have hshape : wsServerFrame op p ++ rest = UInt8.ofNat (128 + op) :: b1 :: (ext ++ (p ++ rest)) := by
+    simp [wsServerFrame, hf]
+  rw [hshape]
+  have hm : decide (128 ≤ b1.toNat) = false := by rw [hmask]; simp
+  have hbig : ¬ (b1.toNat % 128 = 127 ∧ 10485760 < p.length) := by omega
+  simp only [wsDecodeFrame, c1, c2, c3, hm, hr, hbig]
+  simp
+
+/-- **client frame**: masked with ANY 4-byte key, a server's header logic and unmasking loop restore the payload -/
+theorem ws_client_frame_decode (op : Nat) (hop : op < 16) (key : Bytes) (hk : key.length = 4) (p : Bytes)
+    (hp : p.length ≤ 10485760) (rest : Bytes) :
+    wsDecodeFrame true (wsClientFrame op key p ++ rest) = some (op, true, p, rest) := by
+  obtain ⟨b1, ext, hf, hr, hmask, h127⟩ := wsReadLen_lenField 128 (Or.inr rfl) p.length (by omega) (key ++ (wsMask key 0 p ++ rest))
+  obtain ⟨c1, c2, c3⟩ := ws_b0 op hop
+  have hshape : wsClientFrame op key p ++ rest = UInt8.ofNat (128 + op) :: b1 :: (ext ++ (key ++ (wsMask key 0 p ++ rest))) := by
+    simp [wsClientFrame, hf]
+  rw [hshape]
+  have hm : decide (128 ≤ b1.toNat) = true := by rw [hmask]; simp
+  have hbig : ¬ (b1.toNat % 128 = 127 ∧ 10485760 < p.length) := by omega
+  have hlen : ¬ ((key ++ (wsMask key 0 p ++ rest)).length < 4 + p.length) := by
+    simp [hk, wsMask_length]
+  have ht4 : (key ++ (wsMask key 0 p ++ rest)).take 4 = key := List.take_left' hk
+  have hd4 : (key ++ (wsMask key 0 p ++ rest)).drop 4 = wsMask key 0 p ++ rest := List.drop_left' hk
+  have htn : (wsMask key 0 p ++ rest).take p.length = wsMask key 0 p := List.take_left' (wsMask_length key 0 p)
+  have hdn : (wsMask key 0 p ++ rest).drop p.length = rest := List.drop_left' (wsMask_length key 0 p)
+  simp only [wsDecodeFrame, c1, c2, c3, hm, hr, hbig, hlen, ht4, hd4, htn, hdn, wsMask_involutive]
+  simp
 
 end Muscle.Gateway
